@@ -189,9 +189,10 @@ func c15Decode(api string, data []byte, o DecOpt) string {
 		_, isArr := ref.([]interface{})
 		switch {
 		case rerr == nil && isArr && err != nil:
-			// (recorded finding F-JSON-ARRAYTAIL: a top-level array is decoded inside a wrapper object,
-			// so whatever follows the array is read as part of that object)
-			notes = append(notes, "JSONARRAYTAIL NewMapJson rejects a text whose first value is an array encoding/json accepts, because of what follows the array: "+oneLine(err.Error()))
+			// (F-JSON-ARRAYTAIL, repaired: the array is decoded on its own, what follows it is not looked at)
+			notes = append(notes, "JSONFIRST encoding/json accepts the first value (an array) but NewMapJson failed: "+oneLine(err.Error()))
+		case rerr == nil && isArr && !deepEq(m, map[string]interface{}{"object": ref}):
+			notes = append(notes, "JSONFIRST NewMapJson did not return {\"object\": first value} for a text whose first value is an array")
 		case rerr == nil && isObj && err != nil:
 			notes = append(notes, "JSONFIRST encoding/json accepts the first value (an object) but NewMapJson failed: "+oneLine(err.Error()))
 		case rerr != nil && err == nil && len(data) > 0: // ("empty or nil begets empty" is documented)
